@@ -229,4 +229,7 @@ def run(ck, tier):
     ck.rule('R6', 'the connection is (re)opened under the lock: connect() precedes the transmission inside the locked region on every attempt, so a caller that queued behind a failed transaction does not send on the socket that transaction closed (shared with C13 R20)')
     _imp(ck, 'C13', 'R6', ('R20',), 'the connect() that BaseModbusClient.execute performs happens before the lock is taken: a thread waiting for the lock behind a transaction that '
          'ends in a fault finds the socket closed when its turn comes, although the slave is healthy', detail_prefixes=('attempt-without-connect',))
+    ck.rule('R7', 'a transaction that got no (or a short) reply ends with the connection closed before the lock is released: _recv raises on an empty / short first read, which makes _transact close the transport (shared with C13 R6 / R4)')
+    _imp(ck, 'C13', 'R7', ('R6', 'R4'), 'the reply that arrives late is still in flight on the shared socket when the next queued caller takes the lock: callers are handed each other\'s replies',
+         detail_prefixes=('short-first-read', 'empty-first-read', 'first-read', 'handler-does-not-close'))
     return cx.idx
